@@ -2,6 +2,7 @@ package props
 
 import (
 	"fmt"
+	"sort"
 	"strings"
 
 	"verifsim/sim"
@@ -118,6 +119,7 @@ func deadlockSig(desc string) string {
 			out = append(out, p)
 		}
 	}
+	sort.Strings(out)
 	return strings.Join(out, ",")
 }
 
